@@ -8,6 +8,7 @@ import (
 	"bytes"
 	"compress/zlib"
 	"encoding/binary"
+	"strconv"
 
 	"google.golang.org/protobuf/encoding/protowire"
 )
@@ -94,8 +95,15 @@ func DenseBlock(ids []int64, useZlib, corrupt bool) []byte {
 // DenseBlockX: gran > 0 writes a granularity field (absent otherwise: the format default applies); pad > 0 adds an unused
 // string of that many bytes to the string table (a block whose uncompressed size is large although it holds few elements).
 func DenseBlockX(ids []int64, useZlib, corrupt bool, gran int, pad int) []byte {
+	// every node has its own user name, tag key and tag value, so the string table differs from block to block and a string
+	// that ends up on the wrong element (or is overwritten later) is visible
+	strs := []string{""}
+	for _, id := range ids {
+		f := FieldsOf(id)
+		strs = append(strs, f.User, f.Key, f.Val)
+	}
 	var st []byte
-	for _, s := range []string{"", "k", "v"} {
+	for _, s := range strs {
 		st = fBytes(st, 1, []byte(s))
 	}
 	if pad > 0 {
@@ -104,29 +112,53 @@ func DenseBlockX(ids []int64, useZlib, corrupt bool, gran int, pad int) []byte {
 	var pb []byte
 	pb = fBytes(pb, 1, st)
 	if len(ids) > 0 {
-		var lats, lons, vers []int64
-		for _, id := range ids {
+		var lats, lons, tss, css, uids, sids []int64
+		var vers, kv []uint64
+		for i, id := range ids {
+			f := FieldsOf(id)
 			lats = append(lats, id*10)
 			lons = append(lons, id*20)
-			vers = append(vers, 1+id%3)
+			vers = append(vers, uint64(f.Version))
+			tss = append(tss, f.TS)
+			css = append(css, f.CS)
+			uids = append(uids, f.UID)
+			sids = append(sids, int64(1+3*i))
+			kv = append(kv, uint64(2+3*i), uint64(3+3*i), 0)
 		}
 		var d []byte
 		d = fBytes(d, 1, packed(delta(ids)))
 		var in []byte
-		pv := make([]uint64, len(vers))
-		for i, x := range vers {
-			pv[i] = uint64(x)
-		}
-		in = fBytes(in, 1, packed(pv))
+		in = fBytes(in, 1, packed(vers))
+		in = fBytes(in, 2, packed(delta(tss)))
+		in = fBytes(in, 3, packed(delta(css)))
+		in = fBytes(in, 4, packed(delta(uids)))
+		in = fBytes(in, 5, packed(delta(sids)))
 		d = fBytes(d, 5, in)
 		d = fBytes(d, 8, packed(delta(lats)))
 		d = fBytes(d, 9, packed(delta(lons)))
+		d = fBytes(d, 10, packed(kv))
 		pb = fBytes(pb, 2, fBytes(nil, 2, d))
 	}
 	if gran > 0 {
 		pb = fVar(pb, 17, uint64(gran))
 	}
 	return FileBlock("OSMData", pb, useZlib, corrupt)
+}
+
+// Fields are the id-determined contents of a rendered node (besides its position): the rendering is a function of the id
+// alone, so a recorder can tell an intact object from one carrying another element's values.
+type Fields struct {
+	Version  int
+	TS       int64 // seconds
+	CS, UID  int64
+	User     string
+	Key, Val string
+}
+
+// FieldsOf returns the contents node id is rendered with.
+func FieldsOf(id int64) Fields {
+	return Fields{Version: int(1 + id%3), TS: 1300000000 + id*61, CS: id + 5, UID: 1 + id%997,
+		User: "u" + strconv.FormatInt(id, 10), Key: "k" + strconv.FormatInt(id%7, 10), Val: "v" + strconv.FormatInt(id, 10)}
 }
 
 // Block is one abstract block of a configuration.
